@@ -285,6 +285,7 @@ func (c *checker) evalLight(n *node) { c.evalTree(n, false) }
 
 func (c *checker) evalTree(n *node, everyErrorPosition bool) {
 	c.r.Evaluations++
+	drv.Tick()
 	e := &env{}
 	s, ref := n.build(e)
 	c.r.States += len(ref) + 1
